@@ -81,11 +81,12 @@ def make_case(rng, i):
     n = len(case['X'])
     # extra features: a second quantitative one, and two id-like categorical ones (dropped: largest modality rarer than min_freq)
     extra = {'q_more': [round(rng.random() * 9, 1) for _ in range(n)], 'c_id1': ['u%d' % (j % (n - 2)) for j in range(n)], 'c_id2': ['v%d' % (j % (n - 3)) for j in range(n)], 'c_id3': ['w%d' % (j % (n - 1)) for j in range(n)]}
+    extra['q_epoch'] = [1.7e9 + [0, 1, 2, 3, 50, 51, 52, 1000][int(rng.random() * 8)] + (1 if rng.random() < 0.3 else 0) for _ in range(n)]          # epoch seconds: cuts one unit apart at 1.7e9 (not representable in float32)
     extra['c_numnan'] = [[1, 2.0, 3, 2.0][j % 4] if j % 9 else np.nan for j in range(n)]                       # numeric-looking categories with missing values (StringDiscretizer path)
     for k, v in extra.items():
         case['X'][k] = pd.Series(v, dtype=float if k.startswith('q_') else object)
         if case['X_dev'] is not None: case['X_dev'][k] = pd.Series((v * 2)[:len(case['X_dev'])], dtype=float if k.startswith('q_') else object)
-    case['quantitative'] = case['quantitative'] + ['q_more']; case['qualitative'] = case['qualitative'] + ['c_id1', 'c_id2', 'c_id3', 'c_numnan']
+    case['quantitative'] = case['quantitative'] + ['q_more', 'q_epoch']; case['qualitative'] = case['qualitative'] + ['c_id1', 'c_id2', 'c_id3', 'c_numnan']
     return case
 
 
@@ -95,7 +96,8 @@ def chained_case(rng, i):
     n = 60; cols = {}
     for k in range(5):
         if k in (1, 2, 4): cols['h%d' % k] = [leaves[(j + k) % 12] for j in range(n)]                      # 12 levels, 8.3% each: rejected at min_freq 0.1
-        else: cols['h%d' % k] = [leaves[min(11, int((j % 10) * 0.9)) if j % 3 else 0] for j in range(n)]     # v00 frequent
+        elif k == 0: cols['h%d' % k] = [leaves[min(11, int((j % 10) * 0.9)) if j % 3 else 0] for j in range(n)]     # v00 frequent, group G2 rare
+        else: cols['h%d' % k] = [leaves[11 - min(11, int((j % 7) * 1.4)) if j % 4 else 11] for j in range(n)]                 # v23 frequent, group G0 rare: not the same rare leaves as h0
     X = pd.DataFrame({c: pd.Series(v, dtype=object) for c, v in cols.items()})
     return dict(X=X, y=pd.Series([j % 2 for j in range(n)]), X_dev=None, y_dev=None, quantitative=[], qualitative=list(cols), ordinal=[], values_orders={}, target='binary', levels=levels, origin=dict(kind='chained'))
 
@@ -106,11 +108,18 @@ def one(arg):
     def rec(clause, ok, msg, extra=None): recs.append((clause, bool(ok), dict(lit, **(extra or {})) if not ok else dict(kind=kind, seed=seed, extra=extra), msg))
     if kind == 'QuantitativeDiscretizer': case = sub_case(case, case['quantitative'])
     if kind == 'QualitativeDiscretizer': case = sub_case(case, case['qualitative'] + case['ordinal'])
+    feats = ob.features_of(case)
     try:
         full = build_with(kind, case, cfg); dfull = digest_obj(full, case['X'])
-    except Exception:
+    except Exception as e:
+        # refused as a whole: then at least one feature must be refused on its own as well (a feature does not depend on its neighbours)
+        alone_ok = []
+        for f in feats:
+            try: build_with(kind, sub_case(case, [f]), cfg); alone_ok.append(f)
+            except Exception: pass
+        if len(alone_ok) == len(feats) and feats:
+            rec('fit#post.feature_alone_equals_feature_among_others', False, 'every feature is accepted alone but the fit of all of them raised %s: %s' % (type(e).__name__, str(e)[:200]))
         return recs
-    feats = ob.features_of(case)
     # (1) each feature alone
     for f in feats:
         try:
@@ -123,6 +132,19 @@ def one(arg):
     from rtc.battery import probe_shared
     for okp, msg, B in probe_shared(full, kind, case['X']):
         rec('transform#post.output_of_a_feature_independent_of_other_features_values', okp, msg, dict(feature=B))
+    # (1b) a manual edit of ONE feature (missing values grouped with a modality, object built with dropna=False) changes nothing for the other features
+    if 'Carver' in kind or kind == 'Discretizer':
+        try:
+            cfg_e = dict(cfg, dropna=False); edited = build_with(kind, case, cfg_e); d0 = digest_obj(edited, case['X'])
+            withnan = [f for f in edited.features if case['X'][f].isna().any() and edited.str_nan in list(edited.values_orders[f])]
+            if len(withnan) >= 1 and len(edited.features) >= 2:
+                A = withnan[0]; kept = [l for l in edited.values_orders[A] if l != edited.str_nan][0]
+                edited.update_discretizer(A, 'group', np.nan, kept); d1 = digest_obj(edited, case['X'])
+                bad = [f for f in d0 if f != A and d0[f] != d1.get(f)]
+                rec('update_discretizer#post.other_features_keep_their_grouping_and_output', not bad, 'after grouping the missing values of %s with %r the features %r changed' % (A, kept, bad), dict(feature=A))
+        except AssertionError: pass
+        except Exception as e:
+            rec('update_discretizer#post.other_features_keep_their_grouping_and_output', False, 'edit raised %s %s' % (type(e).__name__, str(e)[:100]))
     # (2) reversed feature lists and shuffled columns
     c2 = dict(case); c2['quantitative'] = list(reversed(case['quantitative'])); c2['qualitative'] = list(reversed(case['qualitative'])); c2['ordinal'] = list(reversed(case['ordinal']))
     cols = list(case['X'].columns); rng.shuffle(cols); c2['X'] = case['X'][cols]
